@@ -39,7 +39,9 @@ class PassCall:
         self.name, self.args, self.kwargs, self.node, self.mapped = name, args, kwargs, node, mapped
         self.index = None
         self.via = ()        # module-level helpers (thin wrappers) through which the call was reached
+        self.via_sites = ()  # the call nodes at which those helpers were entered (one helper invocation = one site)
         self.result = None
+        self.discarded = False
 
     def named(self, name):
         return self.name == name or name in self.via
@@ -95,6 +97,7 @@ class Evaluator:
         self.closures = {}
         self.depth = 0
         self.stack = []
+        self.site_stack = []
         self.module_names = {}
         for st in facts.tree.body:
             if isinstance(st, ast.Assign):
@@ -305,6 +308,9 @@ class Evaluator:
 
     def bind(self, target, v, st, node):
         if isinstance(target, ast.Name):
+            if self.depth == 0 and target.id == getattr(self, 'flag', None) and v[0] != 'const':
+                # the option the two evaluations differ in is recomputed into something that is not followed
+                raise Undecided('the `{}` option is rebound to a value that is not followed: {}'.format(target.id, show(v)))
             st.env[target.id] = v
         elif isinstance(target, (ast.Tuple, ast.List)):
             if any(isinstance(e, ast.Starred) for e in target.elts):
@@ -351,7 +357,7 @@ class Evaluator:
             for c in inner.calls[n0:]:
                 c.mapped = True
                 st.calls.append(c)
-            return ('items', 'comp@{}'.format(getattr(node, 'lineno', 0)))
+            return ('items', 'comp@{}'.format(getattr(node, 'lineno', 0)), it if it[0] == 'items' else None)      # (.., the list it was derived from)
         out = []
         saved = dict(st.env)
         for x in self.sequence(st, it, g.iter):
@@ -424,7 +430,7 @@ class Evaluator:
                 return ('partial', args[0], tuple(args[1:]), tuple(sorted(kwargs.items())))
             args, kwargs = self.call_args(node, st)
             if base[0] in ('items',) or any(a[0] == 'items' for a in args):
-                return ('items', 'via {}@{}'.format(f.attr, getattr(node, 'lineno', 0)))
+                return ('items', 'via {}@{}'.format(f.attr, getattr(node, 'lineno', 0)), base if base[0] == 'items' else next(a for a in args if a[0] == 'items'))
             return ('unknown', unparse(node)[:60])
         fv = self.ev(f, st)
         args, kwargs = self.call_args(node, st)
@@ -482,6 +488,7 @@ class Evaluator:
             snapshot = (dict(st.env), st.clone(), len(st.calls))
             if self.depth < self.MAX_DEPTH:
                 self.stack.append(fv[1])
+                self.site_stack.append(node)
                 try:
                     return self.inline(fn, {}, args, kwargs, st, node, name=fv[1])
                 except (Undecided, KeyError, IndexError, TypeError, AttributeError, ValueError, RecursionError):
@@ -490,8 +497,17 @@ class Evaluator:
                     st.status, st.value = None, None
                 finally:
                     self.stack.pop()
-            c = PassCall(fv[1], list(args), dict(kwargs), node)
+                    self.site_stack.pop()
+            # f(x, p=y) with p the next positional parameter is f(x, y): the recorded call lists such arguments by position
+            pos_args, kw_args = list(args), dict(kwargs)
+            if not fn.args.vararg:
+                for pname in [p.arg for p in fn.args.posonlyargs + fn.args.args][len(pos_args):]:
+                    if pname not in kw_args:
+                        break
+                    pos_args.append(kw_args.pop(pname))
+            c = PassCall(fv[1], pos_args, kw_args, node)
             c.via = tuple(self.stack)
+            c.via_sites = tuple(id(n) for n in self.site_stack)
             c.result = ('items', next(self.ids))
             st.calls.append(c)
             return c.result
@@ -500,7 +516,7 @@ class Evaluator:
         if k == 'class':
             return ('unknown', 'instance of ' + fv[1])
         if any(a[0] == 'items' for a in args):
-            return ('items', 'via {}@{}'.format(show(fv), getattr(node, 'lineno', 0)))
+            return ('items', 'via {}@{}'.format(show(fv), getattr(node, 'lineno', 0)), next(a for a in args if a[0] == 'items'))
         return ('unknown', unparse(node)[:60] if isinstance(node, ast.AST) else show(fv))
 
     def builtin(self, name, args, kwargs, st, node):
@@ -519,6 +535,8 @@ class Evaluator:
             raise Undecided('dict(...) of a non-concrete value')
         if name in ('set', 'frozenset') and not args:
             return self.alloc(st, 'list', [], node)
+        if name in ('bool', 'int') and len(args) == 1 and not kwargs and args[0][0] == 'const' and isinstance(args[0][1], (bool, int)):
+            return ('const', bool(args[0][1]) if name == 'bool' else int(args[0][1]))
         if name == 'len' and len(args) == 1:
             o = self.obj(st, args[0])
             return ('const', len(o[1])) if o is not None else ('unknown', 'len')
@@ -540,7 +558,7 @@ class Evaluator:
         if name == 'getattr' and len(args) >= 2:
             return ('unknown', 'getattr')
         if any(a[0] == 'items' for a in args):
-            return ('items', 'via {}@{}'.format(name, getattr(node, 'lineno', 0)))
+            return ('items', 'via {}@{}'.format(name, getattr(node, 'lineno', 0)), next(a for a in args if a[0] == 'items'))
         return ('unknown', name)
 
     def inline(self, fn, closure_env, args, kwargs, st, node, name):
@@ -682,7 +700,11 @@ class Evaluator:
             return [st]
         if isinstance(node, ast.Expr):
             if not isinstance(node.value, ast.Constant):
-                self.ev(node.value, st)
+                n0 = len(st.calls)
+                v = self.ev(node.value, st)
+                for c in st.calls[n0:]:
+                    if c.result == v:
+                        c.discarded = True        # an expression statement: whatever the call returns is dropped
             return [st]
         if isinstance(node, ast.Assign):
             v = self.ev(node.value, st)
@@ -826,6 +848,7 @@ class Pipeline:
                 self.defaults[a.arg] = d
         for value in (False, True):
             ev = Evaluator(facts)
+            ev.flag = flag
             st = State()
             for p in params:
                 st.env[p] = ('param', p)
@@ -882,6 +905,18 @@ class Pipeline:
             if c.named(pass_name) and not c.mapped and len(c.args) > position:
                 return c.args[position]
         return None
+
+
+def derived_from(v, source):
+    """Is the item-list value `v` the list `source`, or obtained from it through expressions that were not followed (an element-wise
+    comprehension, a builtin / method applied to it)?"""
+    while isinstance(v, tuple) and v and v[0] == 'items':
+        if v == source:
+            return True
+        if len(v) < 3 or v[2] is None:
+            return False
+        v = v[2]
+    return v == source
 
 
 def origins(v):
